@@ -2,7 +2,7 @@
 
 Specifications: LefLexer.tla (the lexer as a state machine over character classes with explicit character
 index AND byte offset; invariants: spans on character boundaries, non-empty, increasing, inside the text,
-never more tokens than characters), MC_LefLexer (every string up to 5/6 characters over 13 class
+never more tokens than characters), MC_LefLexer (every string up to 5/6 characters over 15 class
 representatives incl. 2-, 3- and 4-byte characters), MC_LefFaults (valid token lists of MC_LefGen with
 exactly one token fault).
 S->I: lexer: token types/spans/lines equal to the model's (difference in types/lines only = MODEL-DRIFT;
@@ -33,7 +33,7 @@ def run(chk):
         fh.write(json.dumps(c, separators=(",", ":")) + "\n")
     r = tlc.check(os.path.join(D, "MC_LefLexer.tla"), cfg, timeout=14400, mem="24g", on_case=on_case)
     fh.close()
-    chk.add_tlc(f"MC_LefLexer all strings up to {6 if thorough else 5} characters over 13 class representatives", r)
+    chk.add_tlc(f"MC_LefLexer all strings up to {6 if thorough else 5} characters over 15 class representatives", r)
     chk.tlc_must_pass("MC_LefLexer", r)
     chk.require(n[0] > 300000, f"only {n[0]} lexer cases")
     drift = 0
@@ -122,7 +122,7 @@ def run(chk):
     chk.cov["distinct_nontrivial"] = n[0] + len(meta) + npre
     return chk.finish(
         "fault_enumeration",
-        rule="(a) every string of <= 5 (6) characters over 13 class representatives (newline, blank, ';', '\"', '#', digit, '.', '-', "
+        rule="(a) every string of <= 5 (6) characters over 15 class representatives (newline, blank, non-ASCII blank of 2 and 3 bytes, ';', '\"', '#', digit, '.', '-', "
              "1/2/3-byte alphabetic, 1/4-byte other); (b) every valid text of the C04 generator x one token fault (drop, duplicate, swap, "
              "replace by END/MACRO/LAYER/number/';'/unterminated string/unknown word, non-ASCII insertion into names, literals, comments); "
              "(c) every character-boundary prefix of valid texts with ASCII and non-ASCII comments. All are distinct texts.",
